@@ -145,6 +145,34 @@ func init() {
 				"state.Mutex.Unlock": {lean: "()", ret: []string{}, args: []int{}, effect: "KM.GoTypes.ChalEffect.unlock"},
 				"delete":             {lean: "()", ret: []string{}, args: []int{1}, effect: "KM.GoTypes.ChalEffect.delete"}},
 			retLean: "Bool × List KM.GoTypes.ChalEffect"},
+		// C05: VIPPollCheckHandler — the whole handler; responses, the question to VIP and the cookie upgrade are effects
+		glTarget{pkg: "cmd/keymasterd", name: "VIPPollCheckHandler", group: "Vip", natInts: true,
+			binders:   "(ext : KM.GoTypes.VipPollExt) (vipEnabled : Bool) (method : List Char)",
+			paramLean: map[string]string{"w": "", "r": ""},
+			traceLean: "KM.GoTypes.PollEffect",
+			paths: map[string][2]string{
+				"state.Config.SymantecVIP.Enabled": {"vipEnabled", "bool"},
+				"r.Method":                         {"method", "string"},
+				"AuthTypeAny":                      {"(65535 : Nat)", "int"},
+				"vipPollCookie.Value":              {"vipPollCookie", "string"},
+				"pushTransaction.ExpiresAt.Before(time.Now())": {"(ext.expired pushTransaction)", "bool"},
+				"http.StatusBadRequest":                        {"(400 : Nat)", "int"},
+				"http.StatusMethodNotAllowed":                  {"(405 : Nat)", "int"},
+				"http.StatusPreconditionFailed":                {"(412 : Nat)", "int"},
+				"http.StatusInternalServerError":               {"(500 : Nat)", "int"},
+				"http.StatusOK":                                {"(200 : Nat)", "int"}},
+			externs: map[string]glExtern{
+				"state.sendFailureToClientIfLocked": {lean: "ext.locked", ret: []string{"bool"}, args: []int{}},
+				"r.ParseForm":                       {lean: "ext.parseForm", ret: []string{"error"}, args: []int{}},
+				"state.checkAuth":                   {lean: "ext.checkAuth", ret: []string{"authInfo", "error"}, args: []int{2}},
+				"r.Cookie":                          {lean: "ext.pollCookie", ret: []string{"string", "error"}, args: []int{}},
+				"state.getPushPollTransaction":      {lean: "ext.transaction", ret: []string{"pushPollTransaction", "bool"}},
+				"state.Config.SymantecVIP.Client.VipPushHasBeenApproved": {lean: "ext.approved", ret: []string{"bool", "error"}, effect: "KM.GoTypes.PollEffect.askVip"},
+				"state.updateAuthCookieAuthlevel":                        {lean: "ext.upgradeResult", ret: []string{"string", "error"}, args: []int{2, 3}, effect: "KM.GoTypes.PollEffect.upgrade"},
+				"state.writeFailureResponse":                             {lean: "()", ret: []string{}, args: []int{2}, effect: "KM.GoTypes.PollEffect.fail"},
+				"eventNotifier.PublishVIPAuthEvent":                      {lean: "()", ret: []string{}, args: []int{1}, effect: "KM.GoTypes.PollEffect.publish"},
+				"w.WriteHeader":                                          {lean: "()", ret: []string{}, effect: "KM.GoTypes.PollEffect.status"}},
+			retLean: "Unit × List KM.GoTypes.PollEffect"},
 		// C09: unsealCA — the whole injection step under the mutex
 		glTarget{pkg: "cmd/keymasterd", name: "unsealCA", group: "Seal",
 			binders:   "(ext : KM.GoTypes.SealExt) (signerSet : Bool) (hasEdFile : Bool)",
